@@ -466,11 +466,11 @@ func (w *World) typeExists(q string) bool {
 	if i < 0 {
 		return false
 	}
-	pk := w.Prog.All[q[:i]]
-	if pk == nil || pk.Types == nil {
+	tp := w.TypesPkg(q[:i])
+	if tp == nil {
 		return false
 	}
-	_, ok := pk.Types.Scope().Lookup(q[i+1:]).(*types.TypeName)
+	_, ok := tp.Scope().Lookup(q[i+1:]).(*types.TypeName)
 	return ok
 }
 
@@ -484,11 +484,11 @@ func (w *World) isInterfaceMethodKey(key string) bool {
 	if j < 0 {
 		return false
 	}
-	pk := w.Prog.All[tn[:j]]
-	if pk == nil || pk.Types == nil {
+	tp := w.TypesPkg(tn[:j])
+	if tp == nil {
 		return false
 	}
-	o, ok := pk.Types.Scope().Lookup(tn[j+1:]).(*types.TypeName)
+	o, ok := tp.Scope().Lookup(tn[j+1:]).(*types.TypeName)
 	if !ok {
 		return false
 	}
